@@ -1,6 +1,7 @@
 package world
 
 import (
+	"iter"
 	"context"
 	"errors"
 	"fmt"
@@ -438,24 +439,38 @@ func MapSweepOpt(rd Reader, methods []string, pool []*model.Pattern, prefixes []
 	return out
 }
 
-// IterSweep observes a snapshot through its iterators.
+// leftEarly ranges seq once and leaves after the first element, then hands seq back: a sequence value may be ranged
+// any number of times, and a range that was left early must leave nothing behind for the next one.
+func leftEarly[K, V any](seq iter.Seq2[K, V]) iter.Seq2[K, V] {
+	for range seq {
+		break
+	}
+	return seq
+}
+
+// IterSweep observes a snapshot through its iterators. Every sequence is ranged twice: left after its first element,
+// then in full (the full range is what counts).
 func IterSweep(it fox.Iter, methods []string, pool []*model.Pattern, prefixes []string) []string {
 	var out []string
 	var ms []string
-	for m := range it.Methods() {
+	mseq := it.Methods()
+	for range mseq {
+		break
+	}
+	for m := range mseq {
 		ms = append(ms, m)
 	}
 	sort.Strings(ms)
 	out = append(out, "methods "+strings.Join(ms, ","))
 	var all []string
-	for m, r := range it.All() {
+	for m, r := range leftEarly(it.All()) {
 		all = append(all, fmt.Sprintf("all %s %s#%d", m, r.Pattern(), TagOf(r)))
 	}
 	sort.Strings(all)
 	out = append(out, all...)
 	for _, pf := range prefixes {
 		var ps []string
-		for m, r := range it.Prefix(seqOf(methods), pf) {
+		for m, r := range leftEarly(it.Prefix(seqOf(methods), pf)) {
 			ps = append(ps, fmt.Sprintf("%s %s#%d", m, r.Pattern(), TagOf(r)))
 		}
 		sort.Strings(ps)
@@ -463,7 +478,7 @@ func IterSweep(it fox.Iter, methods []string, pool []*model.Pattern, prefixes []
 	}
 	for _, p := range pool {
 		var rs []string
-		for m, r := range it.Routes(seqOf(methods), p.Raw) {
+		for m, r := range leftEarly(it.Routes(seqOf(methods), p.Raw)) {
 			rs = append(rs, fmt.Sprintf("%s#%d", m, TagOf(r)))
 		}
 		if len(rs) > 0 {
